@@ -336,6 +336,22 @@ def build_jobs(ctx):
         mode = rng.choice(MODES)
         K = code_matrix(rng, n, edges, und, mode, loops=rng.choice([0, 0, 0, 1]), codes=draw_codes(rng, mode))
         jobs += jobs_for(K, mode, "struct-" + name, rng, rc.draw_variant(rng, dtype_family(mode, K), p_plain=0.3))
+    # a dense part next to a long sparse part (clique + path, optionally joined, shuffled numbering,
+    # ~50 nodes): walk counts explode in the clique while the path keeps power iterations going -
+    # the stress case for counting / matrix-power implementations (binary distances only)
+    # (thorough tier only: judging one 50-node record against the L0 distance definition costs TLC
+    #  about 40 s; the quick tier has the same family in C16, where only finiteness is judged)
+    for k in range(0 if q else 4):
+        m, L = rng.randint(15, 17), rng.randint(34, 38)
+        n = m + L
+        perm = list(range(n))
+        rng.shuffle(perm)
+        edges = [(a, b) for a in range(m) for b in range(a + 1, m)] + [(x, x + 1) for x in range(m, n - 1)]
+        if k % 2:
+            edges.append((0, m))
+        edges = [tuple(sorted((perm[a], perm[b]))) for a, b in edges]
+        K = code_matrix(rng, n, edges, True, "bin")
+        jobs += jobs_for(K, "bin", "clique+path")
     return jobs
 
 
